@@ -938,3 +938,19 @@ fn test_sieve_block() {
     eprintln!("smooth {:?}", res);
     assert_eq!(res, expect);
 }
+
+#[cfg(yamaquasi_verif)]
+impl SieveTable {
+    /// Verification hook: bucket overflow events counted since the last reset.
+    pub fn verif_n_overflows(&self) -> usize {
+        self.n_overflows
+    }
+}
+
+#[cfg(yamaquasi_verif)]
+impl SieveTableLarge {
+    /// Verification hook: number of hits kept in the (unbounded) overflow list.
+    pub fn verif_n_overflows(&self) -> usize {
+        self.overflows.len()
+    }
+}
